@@ -109,10 +109,12 @@ type cx6Config struct {
 	calls    int
 	errs     []error
 	notified int
+	touched  bool // Reload has been called on this object
 }
 
 func (c *cx6Config) Reload(opts ...config.ReloadedConfigDataOption) error {
 	c.calls++
+	c.touched = true
 	err := c.Config.Reload(opts...)
 	c.errs = append(c.errs, err)
 	return err
@@ -337,7 +339,7 @@ func cx6NewCtx() *cx6Ctx {
 
 func cx6Loop() string {
 	pcs := make([]uintptr, 16)
-	n := runtime.Callers(3, pcs)
+	n := runtime.Callers(2, pcs)
 	fr := runtime.CallersFrames(pcs[:n])
 	for {
 		f, more := fr.Next()
@@ -478,6 +480,9 @@ type cx6Harness struct {
 	stopped    bool
 	offered    map[string]int
 	offeredOn  bool
+	effSrc     *protobufs.EffectiveConfig
+	effSent    map[string]any
+	effective  map[string]any // composeEffectiveConfig() decoded; recomputed after every action that can change it
 	panicked   string
 	notes      []string
 	unparsable int
@@ -639,11 +644,17 @@ func (h *cx6Harness) Reset(init map[string]any) error {
 	}
 	sort.Strings(h.signals)
 
-	cfg, err := h.newConfig()
-	if err != nil {
-		return err
+	// a configuration no Reload has touched is as good as new
+	cfg := h.cfg
+	if cfg == nil || cfg.touched {
+		var err error
+		if cfg, err = h.newConfig(); err != nil {
+			return err
+		}
+		h.cfg = cfg
 	}
-	h.cfg = cfg
+	cfg.clear()
+	h.effective = nil
 	h.ctx = cx6NewCtx()
 	h.cl = &cx6Client{}
 	h.clock = &cx6Clock{Clock: clockwork.NewFakeClock(), tickers: map[time.Duration]*cx6Ticker{}}
@@ -774,13 +785,15 @@ func (h *cx6Harness) Apply(a map[string]any) (err error) {
 	h.cl.mu.Lock()
 	h.cl.statuses, h.cl.offers, h.cl.script = nil, nil, nil
 	h.cl.mu.Unlock()
-	h.offered, h.offeredOn = map[string]int{}, false
 	defer func() {
 		if r := recover(); r != nil {
 			h.panicked = fmt.Sprint(r)
 		}
 	}()
 	name := verifkit.Str(a, "name")
+	if name == "OnMessage" || name == "OnMessageNone" || name == "Poll" || name == "Stop" {
+		h.effective = nil
+	}
 	if h.stopped {
 		return fmt.Errorf("%s after Stop: the specification has nothing after Stop", name)
 	}
@@ -825,6 +838,7 @@ func (h *cx6Harness) Apply(a map[string]any) (err error) {
 		default:
 			return fmt.Errorf("unknown client answer %q", o)
 		}
+		h.offered, h.offeredOn = map[string]int{}, false
 		t := h.clock.ticker(cx6UsageEvery)
 		t.fire()
 		h.settle()
@@ -909,10 +923,16 @@ func (h *cx6Harness) Project() (any, error) {
 	}
 	h.ctx.mu.Unlock()
 	h.mu.Unlock()
+	if h.effective == nil {
+		h.effective = cx6Decode(h.agent.composeEffectiveConfig())
+	}
+	if h.cl.eff != h.effSrc {
+		h.effSrc, h.effSent = h.cl.eff, cx6Decode(h.cl.eff)
+	}
 	out := map[string]any{
 		"running":   cx6Running(h.cfg),
-		"effective": cx6Decode(h.agent.composeEffectiveConfig()),
-		"effSent":   cx6Decode(h.cl.eff),
+		"effective": h.effective,
+		"effSent":   h.effSent,
 		"status":    cx6Status(h.cl.status, nil),
 		"sent":      sent,
 		"reload":    h.cfg.outcome(),
